@@ -40,6 +40,9 @@ var c2ErrorKinds = []string{
 	"error+ignore-elsewhere", "wraperror+wrapignore-elsewhere", "syntax-linedirective", "syntax-linecomment", "syntax-after-a-very-long-line",
 	// the generator's whole output comes from Defer callbacks (GenerateType renders nothing anywhere) and one of them fails
 	"defererror-deferonly",
+	// unparseable text for one type while the other types of the package signal ErrIgnore; errors that wrap well-known sentinels
+	"syntax-straytoken+ignore-elsewhere", "syntax-openbrace+wrapignore-elsewhere", "wrap:canceled", "wrap:deadline", "wrap:eof", "wrap:notexist", "join:canceled", "bare:deadline",
+	"defererror:wrap:canceled", "defererror:bare:deadline",
 }
 
 var c2Syntax = map[string]string{
@@ -168,7 +171,9 @@ func (c *c2Case) faultScripts(pt c2Point) []*script.Script {
 			act = *s.OnAlias
 		}
 		switch {
-		case strings.HasPrefix(pt.Kind, "syntax-"):
+		case strings.HasPrefix(pt.Kind, "defererror:"):
+			act.Defers = []script.DeferAction{{Err: strings.TrimPrefix(pt.Kind, "defererror:")}}
+		case strings.HasPrefix(pt.Kind, "syntax-") && !strings.HasSuffix(pt.Kind, "-elsewhere"):
 			act.Render = append(append([]script.Piece{}, act.Render...), script.Piece{Kind: "block", Text: c2Syntax[pt.Kind]})
 		case pt.Kind == "defererror":
 			act.Defers = []script.DeferAction{{Err: "error"}}
@@ -190,7 +195,11 @@ func (c *c2Case) faultScripts(pt c2Point) []*script.Script {
 			act.Err = "panic"
 		case strings.HasSuffix(pt.Kind, "-elsewhere"):
 			// this type fails for real, every other defined type of the package gets ErrIgnore from the same generator
-			act.Err = strings.SplitN(pt.Kind, "+", 2)[0]
+			if head := strings.SplitN(pt.Kind, "+", 2)[0]; strings.HasPrefix(head, "syntax-") {
+				act.Render = append(append([]script.Piece{}, act.Render...), script.Piece{Kind: "block", Text: c2Syntax[head]})
+			} else {
+				act.Err = head
+			}
 			ign := strings.TrimSuffix(strings.SplitN(pt.Kind, "+", 2)[1], "-elsewhere")
 			for i := range c.Mod.Pkgs {
 				p := &c.Mod.Pkgs[i]
